@@ -734,7 +734,7 @@ def case_script(case):
 
 
 def campaign(ctx):
-    n = {"quick": 700, "thorough": 7000}[ctx.tier]
+    n = {"quick": 1400, "thorough": 7000}[ctx.tier]
     runner.run_hypothesis(ctx, case_strategy(ctx.tier), runner.guarded(run_case), n)
 
 
